@@ -4,6 +4,7 @@ import (
 	"fmt"
 	"go/ast"
 	"go/token"
+	"go/types"
 	"strings"
 
 	"octoverif/core"
@@ -71,5 +72,67 @@ func checkOverloadLoops(c *core.Ctx, rule string) {
 		})
 	}
 	c.Floor(rule, 2, "exact and maybe-matching overload loops of FunctionExpression.Typecheck")
+	_ = n
+}
+
+// checkMaybeLoops (MAYBE): a typechecker loop over candidate overloads that accepts an argument whose type only *may*
+// fit (TypeRelationMaybe) must (a) wrap that argument in a runtime type assertion — otherwise a value of another kind
+// is read through the wrong payload as a zero value — and (b) not consider overloads declared by a type function, which
+// have no static argument list to compare against (an empty call would "match" them and index past its arguments).
+func checkMaybeLoops(c *core.Ctx, rule string) {
+	p := c.Prog
+	n := 0
+	for _, fr := range p.AllFuncs("logical") {
+		if core.Rel(fr.Pkg) != "logical" {
+			continue
+		}
+		name := p.FName(fr)
+		loopNo := 0
+		ast.Inspect(fr.Decl.Body, func(nd ast.Node) bool {
+			rs, ok := nd.(*ast.RangeStmt)
+			if !ok || !strings.HasSuffix(core.ExprStr(rs.X), ".Descriptors") {
+				return true
+			}
+			loopNo++
+			body := core.FullStr(rs.Body)
+			if !strings.Contains(body, "TypeRelationMaybe") {
+				return true
+			}
+			n++
+			c.SawFunc(name)
+			key := fmt.Sprintf("%s/maybe-matching loop %d", name, loopNo)
+			asserts := strings.Contains(body, "ExpressionTypeTypeAssertion")
+			c.Decide(asserts, rule, key+"/assertion", rs.Pos(), 1, "a maybe-fitting argument is wrapped in a type assertion",
+				"the loop accepts arguments whose static type only may fit the overload, but does not wrap them in a TypeAssertion: at run time a value of another kind is read through the wrong payload (a String as Int 0) without any error")
+			if strings.Contains(body, ".ArgumentTypes") {
+				valueName := ""
+				if id, ok := rs.Value.(*ast.Ident); ok {
+					valueName = id.Name
+				}
+				skipsTypeFn := false
+				for _, s := range rs.Body.List {
+					if is, ok := s.(*ast.IfStmt); ok && core.ExprStr(is.Cond) == valueName+".TypeFn != nil" && len(is.Body.List) > 0 {
+						if b, ok := is.Body.List[len(is.Body.List)-1].(*ast.BranchStmt); ok && b.Tok == token.CONTINUE {
+							skipsTypeFn = true
+						}
+					}
+				}
+				hasTypeFn := false
+				if rs.Value != nil {
+					if st, ok := fr.Info().TypeOf(rs.Value).Underlying().(*types.Struct); ok {
+						for i := 0; i < st.NumFields(); i++ {
+							if st.Field(i).Name() == "TypeFn" {
+								hasTypeFn = true
+							}
+						}
+					}
+				}
+				c.Decide(!hasTypeFn || skipsTypeFn, rule, key+"/type-function overloads", rs.Pos(), 1, "overloads declared by a type function are skipped",
+					"the loop compares the call's arity with the overload's static argument list, which is empty for overloads declared by a type function: a call without arguments matches them and the implementation indexes past its arguments")
+			}
+			return true
+		})
+	}
+	c.Floor(rule, 2, "function and table-valued-function maybe-matching loops")
 	_ = n
 }
